@@ -54,6 +54,8 @@ func extend(r *core.RNG, m *model.Schema) []string {
 		{Name: "le", Type: model.ListOf(model.NonNull(model.Named("XE"))), HasDefault: true, Default: []interface{}{xe.Values[0].Internal, xe.Values[2].Internal}},
 		{Name: "n", Type: model.Named("Int"), HasDefault: true, Default: 7},
 		{Name: "x", Type: model.Named("Float"), HasDefault: true, Default: []float64{2.5, 3, 1e21, 1e-7, -0.5}[r.Intn(5)]},
+		{Name: "xint", Type: model.Named("Float"), HasDefault: true, Default: []int{4, 0, -12}[r.Intn(3)], Desc: "a Go int as the default of a Float"},
+		{Name: "lone", Type: model.ListOf(model.Named("Int")), HasDefault: true, Default: 5, Desc: "a single value as the default of a list (list of one)"},
 		{Name: "s", Type: model.Named("String"), HasDefault: true, Default: []string{"q\"uo\\te", "tab\there\nnl", "", "ünï ☃", "bell\u0007"}[r.Intn(5)]},
 		{Name: "b", Type: model.Named("Boolean"), HasDefault: true, Default: r.Bool()},
 		{Name: "id", Type: model.Named("ID"), HasDefault: true, Default: "id-9"},
